@@ -63,15 +63,15 @@ type ltr struct {
 	scopes  []map[string]any // name → int (scalar cell) | *larr
 	lines   []lline
 	cnt     map[string]int
-	inputs  []string // function inputs, in order
+	inputs  []string  // function inputs, in order
 	inRef   []limbRef // for every input: Go parameter (or receiver) name and limb index (-1: scalar)
 	inSet   map[string]bool
 	segs    [][]lline // closed segments
 	depth   int       // inlining depth
 	splitRe *regexp.Regexp
 	src     []byte
-	bm      *bytesMode            // non-nil: byte-conversion pass (bytes.go) — extra value kinds and calls
-	curCont func() *lresult       // bytes pass: what follows the innermost enclosing `if` whose body returns on some paths only
+	bm      *bytesMode      // non-nil: byte-conversion pass (bytes.go) — extra value kinds and calls
+	curCont func() *lresult // bytes pass: what follows the innermost enclosing `if` whose body returns on some paths only
 }
 
 func (x *ltr) newCell(v *lval) int {
